@@ -164,7 +164,7 @@ func (c13) Build(tier string, seed uint64) []any {
 	th := tier == "thorough"
 	per := 2
 	if th {
-		per = 22
+		per = 150
 	}
 	classes := []string{"noise", "altext", "bands", "twolevel", "ramp", "checker", "lowent", "runs", "smooth", "impulses", "edges", "const"}
 	sizes := []int{1, 2, 3, 4, 5, 7, 8, 9, 16, 17, 31, 33}
